@@ -48,3 +48,4 @@ CONSTANTS
  SendWhileDisc = FALSE
  PeerWhileDisc = FALSE
  LateFrames = FALSE
+ CrossVersion = FALSE
